@@ -162,7 +162,10 @@ def run_generator(ns, seed=0, shuffle_flags_seed=None):
     base = tempfile.mkdtemp(prefix='gen_', dir=os.environ.get('VERIF_WORK') or C.WORKROOT)
     outdir = os.path.join(base, 'out', 'instances')
     out = dict(code=None, exc=None, dir_created=False, files=[], log=[])
+    precreated = (seed % 3 == 2)          # the output directory may already exist
     try:
+        if precreated:
+            os.makedirs(outdir)
         rng = pyrandom.Random(shuffle_flags_seed) if shuffle_flags_seed is not None else None
         argv = argv_of(ns, outdir, rng)
         out['argv'] = [a if a != outdir else '<out>' for a in argv]
@@ -179,7 +182,9 @@ def run_generator(ns, seed=0, shuffle_flags_seed=None):
                 out['code'] = 1
                 out['exc'] = [type(e).__name__, str(e)[:200]]
         out['log'] = log.log
-        out['dir_created'] = os.path.exists(os.path.join(base, 'out'))
+        out['dir_created'] = (os.path.exists(os.path.join(base, 'out')) and not precreated) or \
+            (precreated and bool(os.listdir(outdir)))
+        out['precreated'] = precreated
         if os.path.isdir(outdir):
             names = sorted(os.listdir(outdir), key=lambda s: (len(s), s))
             for nm in names:
